@@ -67,9 +67,16 @@ func withSpecEnums(d *drv.Driver, a *analysed, env *irdump.Env) *irdump.Env {
 	if json.Unmarshal(b, out) != nil {
 		return env
 	}
-	for _, dd := range out.Decls {
-		if sd := spec[dd.Q]; dd.Kind == "enum" && sd != nil && sd.Kind == "enum" {
+	for i, dd := range out.Decls {
+		sd := spec[dd.Q]
+		if sd == nil || sd.Kind != "enum" {
+			continue
+		}
+		if dd.Kind == "enum" {
 			dd.Members = sd.Members
+		} else {
+			// an enum of the specification that the analysis took for a plain named type
+			out.Decls[i] = sd
 		}
 	}
 	return out
